@@ -897,12 +897,6 @@ func init() {
 	if os.Getenv("C14_SHUTDOWN") == "1" {
 		crashPoints = append(crashPoints, "shutdown")
 	}
-	// "pfin-*" (the completion is recorded by another party after the notifier has read the pending event for an attempt and before it calls the
-	// receiver) is implemented but not enumerated: the notifier checks, then calls, so the receiver IS called after that completion - on any
-	// implementation that does not hold the store over the receiver call. C14_PFIN=1 adds it (every first external completion of a scenario).
-	if os.Getenv("C14_PFIN") == "1" {
-		finKinds = []string{"pfin-ok", "pfin-fail"}
-	}
 }
 
 // genScenario: rnd draws the history, subscribers and receiver scripts; rnd2 (a separate stream) draws the offers that must be refused, the
@@ -1258,7 +1252,18 @@ func weave(sc *scenario, rnd *rand.Rand, key *dagx.Key, built []dag.Transaction,
 		lead := [][]string{nil, {"fail"}, {"incomplete"}, {"fail", "incomplete"}}[rnd.Intn(4)]
 		sc.Scripts[k] = script{Seq: append(append([]string{}, lead...), kind)}
 	}
+	// ... and, in every ninth scenario, one event whose completion is recorded after the notifier has read it for an attempt and before it calls
+	// the receiver ("pfin-*", hook dag.notify.receiver): the notifier checks, then calls, so that one call follows the completion (own key, see the
+	// oracle); what the receiver returns from it decides whether anything is written back. Drawn last: the rest of the scenario does not depend on it.
+	if idx%9 == 4 && len(cands) > 0 {
+		k := cands[rnd.Intn(len(cands))].key
+		lead := [][]string{nil, {"fail"}, {"incomplete"}}[rnd.Intn(3)]
+		sc.Scripts[k] = script{Seq: append(append([]string{}, lead...), preKinds[(idx/9)%len(preKinds)])}
+	}
 }
+
+// completion recorded between the notifier's read of the pending event and its call of the receiver x what the receiver returns from that call
+var preKinds = []string{"pfin-fail", "pfin-ok", "pfin-incomplete", "pfin-fatal"}
 
 // eventuallyOK: the receiver reports completion within one process (no fatal error on the way, not failing for ever).
 func eventuallyOK(sp script) bool {
@@ -1633,6 +1638,7 @@ func evaluate(r *ev.Run, c *caseResult) {
 	// (not because of what is offered) count as regular attempts when the fault did not fire or the process died before saying so.
 	faultKind := func(k string) bool { return k == "ctx-cancel" || k == "store-fault" || k == "wp-store-fault" }
 	var openRej *line
+	preCall := map[string][]line{} // sub|ref|type -> completions recorded by another party at the hook right before the receiver call of an attempt
 	foldRej := func(b line) {
 		if b.f[3] == "wp-store-fault" {
 			wpBegins[b.f[1]] = append(wpBegins[b.f[1]], line{b.phase, b.seq, []string{"wp-begin", b.f[1], "rej"}})
@@ -1676,6 +1682,9 @@ func evaluate(r *ev.Run, c *caseResult) {
 		case "fin-ext":
 			r.Count("completions_recorded_by_another_party", 1)
 			r.Distinct("positions_of_completions_recorded_by_another_party", f[4])
+			if f[4] == "before-receiver-call" {
+				preCall[f[1]+"|"+f[2]+"|"+f[3]] = append(preCall[f[1]+"|"+f[2]+"|"+f[3]], l)
+			}
 		case "start-dag":
 			ph.startDag[f[1]] = true
 			if f[2] == "true" {
@@ -1937,9 +1946,37 @@ func evaluate(r *ev.Run, c *caseResult) {
 				r.Unspecified("event-created-during-start-up-replay")
 				continue
 			}
-			// (C) no delivery after a recorded completion
-			for _, d := range ds {
+			// (C) no delivery after a recorded completion. One call is told apart: when the completion was recorded by another party after the
+			// notifier had read the pending event for an attempt and before it called the receiver (check-then-call), the call of THAT attempt
+			// follows the completion; it has its own key. Every call after that one is judged as before.
+			for j, d := range ds {
 				hit := false
+				// the completion recorded right before this call, if any: the last such line of this process before the call, with no other call in between
+				preSeq := -1
+				if _, ext, _ := decodeResult(d.result); ext == "pre" {
+					for _, pc := range preCall[k] {
+						if pc.phase == d.phase && pc.seq < d.seq && pc.seq > preSeq && (j == 0 || ds[j-1].phase != d.phase || ds[j-1].seq < pc.seq) {
+							preSeq = pc.seq
+						}
+					}
+				}
+				if preSeq >= 0 {
+					earlier, own := false, false
+					for _, cm := range completions[s.Name+"|"+ref] {
+						if before(cm, d.phase, preSeq) {
+							earlier = true
+						} else if before(cm, d.phase, d.seq) {
+							own = true
+						}
+					}
+					if !earlier {
+						if own {
+							r.Count("receiver_calls_that_followed_a_completion_recorded_right_before_the_call", 1)
+							viol("redelivered-after-completion/completion-recorded-before-receiver-call", fmt.Sprintf("subscriber %s was called for %s (%s, attempt %d, returning %s) although the completion of the event had been recorded by another party after the notifier had read the pending event for this attempt and before it called the receiver", s.Name, ref, typ, d.attempt, d.result), ref, s.Name)
+						}
+						continue
+					}
+				}
 				for _, cm := range completions[s.Name+"|"+ref] {
 					if before(cm, d.phase, d.seq) {
 						where := "in the same process"
@@ -2118,7 +2155,7 @@ func TestCheck(t *testing.T) {
 	r.Assume(fmt.Sprintf("retry budget = %d attempts per event (dag.maxRetries); an event counts as failed for good when its persisted retry counter reached the budget or its last delivery reported a fatal error", retryBudget))
 	r.Assume("a process is quiescent when no goroutine has a frame inside dag.(*notifier) (stack dump); wall-clock only bounds the wait for that (-> inconclusive)")
 	r.Assume("receiver behaviour is a function of the attempt number per (subscriber, transaction, event type) counted over all processes of a case")
-	r.Assume("a completion recorded by another party is placed at hook points of the running attempt (inside the receiver, dag.notify.returned, dag.notify.recorded), i.e. in the attempt's own goroutine: the position relative to the attempt is logical, not timed. The window between the notifier reading the pending event and calling the receiver is not used (a call that follows a completion recorded there is inherent to check-then-call)")
+	r.Assume("a completion recorded by another party is placed at hook points of the running attempt (dag.notify.receiver = after the notifier read the pending event and before it calls the receiver, inside the receiver, dag.notify.returned, dag.notify.recorded), i.e. in the attempt's own goroutine: the position relative to the attempt is logical, not timed. The receiver call of the attempt whose completion was recorded at dag.notify.receiver is reported under its own key (redelivered-after-completion/completion-recorded-before-receiver-call); every later call under the general keys")
 	r.Assume("ledger lines are written before the action they announce; a line cut short by the SIGKILL (no line end / wrong shape) counts as not written")
 
 	nScen := r.Pick(36, 280)
